@@ -155,6 +155,11 @@ Definition outcome_eqb (a b: outcome) : bool :=
 Definition empty_alias (c: cls) (f: fld) : bool :=
   match alias_of c f with Some a => String.eqb a "" | None => false end.
 
+(* `if discr and discr.field`: an empty discriminator field name is not a field name *)
+Definition discr_ok (c: cls) : bool :=
+  match c_discr c with Some (Some s) => negb (String.eqb s "") | _ => true end.
+
 Definition in_domain (c: cls) : bool :=
   (match c_fields c with [] => negb (c_forbid c) | _ :: _ => true end)
-  && forallb (fun f => negb (empty_alias c f)) (c_fields c).
+  && forallb (fun f => negb (empty_alias c f)) (c_fields c)
+  && discr_ok c.
